@@ -37,7 +37,7 @@ PERTS = ("none", "permute", "regroup", "drop_sig", "dup_sig", "subst_sig", "drop
 _REQ = ([f"pert:{p}" for p in PERTS] +
         ["entry:AggregateVerify:basic", "entry:AggregateVerify:aug", "entry:AggregateVerify:pop",
          "entry:FastAggregateVerify", "entry:Aggregate", "want:True", "want:False", "repeated_key", "repeated_msg", "aggregate_verify:all_messages_equal",
-         "zero_sum", "aggregate:wrong_size", "aggregate:empty", "aggregate:regroup", "n>=4"])
+         "zero_sum", "honest_aggregate_is_identity", "aggregate:wrong_size", "aggregate:empty", "aggregate:regroup", "n>=4"])
 REQUIRED_LABELS = {"quick": _REQ + ["aggregate:n>=7"], "thorough": _REQ + ["n>=16", "aggregate:n>=7"]}
 
 KEY_POOL = [1, 2, 3, R - 1, R - 2, (R - 1) // 2, 0x263dbd792f5b1be47ed85f8938c0f29586af0d3ac7b977f21c278fe1462040e3,
@@ -154,6 +154,8 @@ def o_verify(ctx, case):
         ctx.label("repeated_msg")
     if all(d is not None for d in dlogs) and n >= 2 and sum(dlogs) % R == 0:
         ctx.label("zero_sum")
+    if want and agg == B.signature_bytes(None):
+        ctx.label("honest_aggregate_is_identity")
     if n >= 4:
         ctx.label("n>=4")
     if n >= 16:
@@ -240,8 +242,9 @@ def build(t):
                 msgs.append(msgs[(mi - 500) % len(msgs)])
             else:
                 msgs.append(MSG_POOL[(mi + 7 * j) % len(MSG_POOL)])
-        if suite == "pop" and a % 5 == 0:
-            msgs = [msgs[0]] * n            # one shared message through AggregateVerify (legal outside the basic suite)
+        if suite == "pop" and (a % 5 == 0 or (1000 in idxs and a % 2 == 0)):
+            msgs = [msgs[0]] * n            # one shared message through AggregateVerify (legal outside the basic suite);
+            #                                 with a zero-sum pair the HONEST aggregate can then be the identity
         if suite == "basic" and pert != "none" and len(set(msgs)) != n:
             # keep most basic-suite cases out of the trivial "repeated message" refusal
             if a % 4:
@@ -398,6 +401,8 @@ def t_verify(ctx, shard, nshards, n, nmax):
                              pert, 100 + k, 7 + k, 0)))
     # zero-sum FastAggregateVerify with the honest (identity) aggregate
     ex.append(build(("pop", True, [4, 1000], [3, 3], "none", 1, 1, 0)))
+    ex.append(build(("pop", False, [4, 1000], [3, 3], "none", 10, 1, 0)))          # honest aggregate = identity: must verify
+    ex.append(build(("pop", False, [4, 1000, 7, 1000], [3, 3, 3, 3], "permute", 20, 1, 0)))
     ex.append(build(("basic", False, [1, 2, 3], [500, 500, 500], "none", 1, 1, 0)))
     ex.append(build(("aug", False, [1, 500, 500], [2, 500, 500], "none", 1, 1, 0)))
     drive(ctx, f"verify{shard}", s_verify(nmax), lambda c: o_verify(ctx, c), n, ex[shard::nshards], shrink=False)
